@@ -17,6 +17,7 @@ import (
 	"io"
 	"net"
 	"net/http"
+	"os"
 	"sort"
 	"strconv"
 	"strings"
@@ -32,8 +33,6 @@ import (
 	"verif/harness/internal/core"
 	"verif/harness/internal/golib"
 )
-
-const ioTimeout = 3 * time.Second
 
 // ---------- op parsing ----------
 
@@ -150,6 +149,15 @@ type exRec struct {
 	closedAfterHijack bool
 	ctxAfterEnd       bool // context still retrievable when a later request of the connection was handled
 	stalled           bool // the response body neither completed nor hit EOF: the read timed out
+	// wire attributes of the response the client parsed (wire.go)
+	pvSeen, frSeen string
+	// TLS session attribution (tlsid.go): what req.TLS held, and the client's view of the session the
+	// request was sent through
+	layer            int
+	tlsSeen, tlsWant tlsView
+	hijView          tlsView // the TLS session of the connection a hijacker was handed
+	// early-answering origin (early.go)
+	earlyErr string
 }
 
 type world struct {
@@ -159,6 +167,7 @@ type world struct {
 	items   map[string]*item
 	dials   int
 	current string // id of the exchange being driven (sequential mode)
+	early   map[string]chan struct{} // closed when the origin has started to answer early (early.go)
 }
 
 func (w *world) rec(id string) *exRec {
@@ -172,8 +181,6 @@ func (w *world) rec(id string) *exRec {
 func (w *world) next() int { w.seq++; return w.seq }
 
 const idHeader = "X-Verif-Id"
-
-var errScripted = errors.New("verif-modifier-error")
 
 func hijackReply(conn net.Conn, brw *bufio.ReadWriter) {
 	// the hijacker answers on the connection it was handed and returns without closing it
@@ -216,6 +223,7 @@ func (w *world) reqmod() martian.RequestModifier {
 		}
 		r.https = req.URL.Scheme == "https"
 		r.tlsAttached = req.TLS != nil
+		r.tlsSeen = viewOf(req.TLS)
 		// exchanges that have ended on this connection must no longer have a retrievable context,
 		// even while the connection lives on (a MITM CONNECT has not ended while its tunnel is served)
 		for oid, o := range w.recs {
@@ -230,17 +238,17 @@ func (w *world) reqmod() martian.RequestModifier {
 		}
 		switch it.s("rq", "pass") {
 		case "err":
-			return errScripted
+			return modErr(it.s("ek", "plain"), reqErrMark)
 		case "skip":
 			ctx.SkipRoundTrip()
 		case "errskip":
 			ctx.SkipRoundTrip()
-			return errScripted
+			return modErr(it.s("ek", "plain"), reqErrMark)
 		case "hijack":
 			conn, brw, err := ctx.Session().Hijack()
 			if err == nil {
 				w.mu.Lock()
-				r.hij = connKind(conn)
+				r.hij, r.hijView = connKind(conn), connView(conn)
 				w.mu.Unlock()
 				hijackReply(conn, brw)
 			}
@@ -274,12 +282,12 @@ func (w *world) resmod() martian.ResponseModifier {
 		}
 		switch it.s("rs", "pass") {
 		case "err":
-			return errors.New("verif-resmod-error")
+			return modErr(it.s("sek", "plain"), resErrMark)
 		case "hijack":
 			conn, brw, err := ctx.Session().Hijack()
 			if err == nil {
 				w.mu.Lock()
-				r.hij = connKind(conn)
+				r.hij, r.hijView = connKind(conn), connView(conn)
 				w.mu.Unlock()
 				hijackReply(conn, brw)
 			}
@@ -381,17 +389,15 @@ func (e *Ex) buildRequest(id string, it *item) []byte {
 	case "abss":
 		target = "https://" + host + path
 	}
-	fmt.Fprintf(&b, "%s %s HTTP/1.1\r\nHost: %s\r\n%s: %s\r\n", method, target, host, idHeader, id)
+	fmt.Fprintf(&b, "%s %s %s\r\nHost: %s\r\n%s: %s\r\n", method, target, protoOf(it.s("pv", "11")), host, idHeader, id)
 	for _, h := range reqHeaders(it) {
 		fmt.Fprintf(&b, "%s: %s\r\n", h[0], h[1])
 	}
-	if it.s("rc", "0") == "1" {
-		b.WriteString("Connection: close\r\n")
-	}
+	writeConnLines(&b, connLines(it, "ct", "rc"))
 	body := Body(it.n("rb", 0), it.n("hs", 1))
 	hasBody := method == "POST" || method == "PUT" || method == "PATCH" || method == "DELETE" || it.n("rb", 0) > 0
 	if hasBody {
-		if it.s("rf", "cl") == "ch" {
+		if it.s("rf", "cl") == "ch" && it.s("pv", "11") != "10" { // HTTP/1.0 has no chunked coding
 			b.WriteString("Transfer-Encoding: chunked\r\n\r\n")
 			b.Write(chunked(body, it.n("hs", 1)))
 		} else {
@@ -424,7 +430,7 @@ func bodiless(method string, st int) bool {
 func originResponse(id string, it *item) ([]byte, bool) {
 	st := it.n("st", 200)
 	var b bytes.Buffer
-	proto := "HTTP/1.1"
+	proto := protoOf(it.s("opv", "11"))
 	fmt.Fprintf(&b, "%s %d %s\r\n%s: %s\r\n", proto, st, http.StatusText(st), idHeader, id)
 	for _, h := range resHeaders(it) {
 		fmt.Fprintf(&b, "%s: %s\r\n", h[0], h[1])
@@ -432,10 +438,9 @@ func originResponse(id string, it *item) ([]byte, bool) {
 	if it.s("gz", "0") == "1" {
 		b.WriteString("Content-Encoding: gzip\r\n")
 	}
-	closeAfter := it.s("oc", "0") == "1"
-	if closeAfter {
-		b.WriteString("Connection: close\r\n")
-	}
+	// the origin hangs up after the response exactly when it said so (version and Connection tokens)
+	closeAfter := askedClose(it.s("opv", "11"), connLines(it, "oct", "oc"))
+	writeConnLines(&b, connLines(it, "oct", "oc"))
 	body := originBody(it)
 	if bodiless(it.s("m", "GET"), st) {
 		if it.s("m", "GET") == "HEAD" {
@@ -444,7 +449,11 @@ func originResponse(id string, it *item) ([]byte, bool) {
 		b.WriteString("\r\n")
 		return b.Bytes(), closeAfter
 	}
-	switch it.s("of", "cl") {
+	of := it.s("of", "cl")
+	if of == "ch" && it.s("opv", "11") == "10" {
+		of = "cl" // HTTP/1.0 has no chunked coding
+	}
+	switch of {
 	case "ch":
 		b.WriteString("Transfer-Encoding: chunked\r\n\r\n")
 		b.Write(chunked(body, it.n("hs", 1)+5))
@@ -480,9 +489,20 @@ func (e *Ex) originConn(c net.Conn, isTLS bool) {
 		if err != nil {
 			return
 		}
-		body, _ := io.ReadAll(req.Body)
 		id := req.Header.Get(idHeader)
 		w := e.w
+		w.mu.Lock()
+		eit := w.items[id]
+		w.mu.Unlock()
+		var body []byte
+		var earlyErr error
+		earlyClose, early := false, false
+		if eit != nil {
+			body, earlyErr, earlyClose, early = e.originEarly(c, req, id, eit)
+		}
+		if !early {
+			body, _ = io.ReadAll(req.Body)
+		}
 		w.mu.Lock()
 		it := w.items[id]
 		r := w.rec(id)
@@ -496,7 +516,16 @@ func (e *Ex) originConn(c net.Conn, isTLS bool) {
 		if it != nil {
 			r.upHdrOK, r.upHdrDetail = headersIncluded(reqHeaders(it), req.Header)
 		}
+		if earlyErr != nil {
+			r.earlyErr = earlyErr.Error()
+		}
 		w.mu.Unlock()
+		if early {
+			if earlyClose || earlyErr != nil {
+				return
+			}
+			continue
+		}
 		if it == nil { // probe or unknown: plain 200
 			fmt.Fprintf(c, "HTTP/1.1 200 OK\r\n%s: %s\r\nContent-Length: 2\r\n\r\nok", idHeader, id)
 			continue
@@ -571,6 +600,7 @@ type Ex struct {
 	originTLSAddr string
 	sessions      []string
 	shaped        *trafficshape.Listener
+	ops           []string // the conn / item ops of the case, for a re-confirming second run
 }
 
 var caseCounter int
@@ -612,14 +642,19 @@ func (e *Ex) Do(op string) core.Result {
 		return core.Result{Impl: o}
 	}
 	toks := strings.Fields(op)
+	if o, ok := doWireOp(toks); ok {
+		return core.Result{Impl: o}
+	}
 	switch toks[0] {
 	case "conn":
+		e.ops = append(e.ops, op)
 		e.conn = parseKV(toks[1:])
 		return core.Result{Impl: "ok"}
 	case "x", "cmitm", "cblind":
 		if e.w == nil {
 			e.w = &world{recs: map[string]*exRec{}, items: map[string]*item{}}
 		}
+		e.ops = append(e.ops, op)
 		id := fmt.Sprintf("%d-%d", e.caseNo, len(e.ids))
 		e.ids = append(e.ids, id)
 		e.w.items[id] = &item{kind: toks[0], kv: parseKV(toks[1:]), raw: op}
@@ -628,7 +663,15 @@ func (e *Ex) Do(op string) core.Result {
 		if e.w == nil {
 			e.w = &world{recs: map[string]*exRec{}, items: map[string]*item{}}
 		}
-		return e.runScenario()
+		t0 := time.Now()
+		res := e.runConfirmed()
+		if d := time.Since(t0); d > 400*time.Millisecond && os.Getenv("VERIF_PXY_SLOW") != "" {
+			fmt.Fprintf(os.Stderr, "SLOW %v conn=%v\n", d, e.conn)
+			for _, id := range e.ids {
+				fmt.Fprintf(os.Stderr, "   %s\n", e.w.items[id].raw)
+			}
+		}
+		return res
 	case "junk":
 		return e.junk(toks)
 	}
@@ -662,7 +705,7 @@ func (e *Ex) start() {
 	}
 	p.SetRequestModifier(e.w.reqmod())
 	p.SetResponseModifier(e.w.resmod())
-	if e.conn["listener"] == "mitm" || e.conn["listener"] == "shapedmitm" {
+	if strings.Contains(e.conn["listener"], "mitm") { // mitm, shapedmitm, tlsmitm, shapedtlsmitm
 		p.SetMITM(mitmC)
 		// upstream TLS must trust the harness origin; keep the default transport's other settings
 		tr := p.GetRoundTripper().(*http.Transport).Clone()
@@ -705,17 +748,18 @@ func (e *Ex) start() {
 	e.proxy = p
 	e.pl = listen()
 	var sl net.Listener = e.pl
-	switch e.conn["listener"] {
-	case "tls": // transparent TLS: the proxy's own listener terminates TLS with forged certificates
-		tr := p.GetRoundTripper()
-		if t, ok := tr.(*http.Transport); ok {
+	if listenerTLS(e.conn["listener"]) {
+		// transparent TLS: the proxy's own listener terminates TLS with forged certificates
+		// (tls, tlsmitm; shapedtls, shapedtlsmitm: the same behind a traffic-shaping listener)
+		if t, ok := p.GetRoundTripper().(*http.Transport); ok {
 			t = t.Clone()
 			t.TLSClientConfig = &tls.Config{RootCAs: caPool}
 			p.SetRoundTripper(t)
 		}
 		sl = tls.NewListener(e.pl, mitmC.TLS())
-	case "shaped", "shapedmitm":
-		e.shaped = trafficshape.NewListener(e.pl)
+	}
+	if strings.HasPrefix(e.conn["listener"], "shaped") {
+		e.shaped = trafficshape.NewListener(sl)
 		sl = e.shaped
 	}
 	go p.Serve(sl)
@@ -730,6 +774,7 @@ func (cc *clientConn) readResponse(method string) (*http.Response, []byte, error
 	cc.c.SetReadDeadline(time.Now().Add(ioTimeout))
 	res, err := http.ReadResponse(cc.br, &http.Request{Method: method})
 	if err != nil {
+		isTimeout(err)
 		return nil, nil, err
 	}
 	if method == "CONNECT" && res.StatusCode == 200 {
@@ -750,13 +795,20 @@ func (e *Ex) absorb(id string, it *item, res *http.Response, body []byte, berr e
 	r.cp = berr == nil
 	r.stalled = isTimeout(berr)
 	r.downID = res.Header.Get(idHeader)
-	for _, v := range res.Header["Warning"] {
-		if strings.Contains(v, "verif-resmod-error") {
-			r.ws++
-		} else {
-			r.wt++
+	// the response modifier's Warning is the one carrying its error text (added last); any other
+	// Warning comes from the round trip / dial failure
+	r.wt = len(res.Header["Warning"])
+	if it.s("rs", "pass") == "err" {
+		want := modErr(it.s("sek", "plain"), resErrMark)
+		for _, v := range res.Header["Warning"] {
+			if warningCarries(v, want) {
+				r.ws, r.wt = 1, r.wt-1
+				break
+			}
 		}
 	}
+	r.pvSeen = fmt.Sprintf("%d%d", res.ProtoMajor, res.ProtoMinor)
+	r.frSeen = framingSeen(it.s("m", "GET"), res)
 	r.downBody = sum(body)
 	r.downHdrOK, r.downHdrDetail = headersIncluded(resHeaders(it), res.Header)
 }
@@ -770,13 +822,22 @@ func (e *Ex) runScenario() core.Result {
 	}
 	defer raw.Close()
 	cc := &clientConn{c: raw, br: bufio.NewReader(raw)}
-	if e.conn["listener"] == "tls" {
-		tc := tls.Client(raw, &tls.Config{RootCAs: caPool, ServerName: "proxy.test"})
+	flip := e.conn["tflip"] == "1"
+	curLayer, curView := 0, tlsView{} // the innermost TLS session the client currently speaks through
+	if listenerTLS(e.conn["listener"]) {
+		tc := tls.Client(raw, layerConfig(e.caseNo, 1, flip))
 		tc.SetDeadline(time.Now().Add(ioTimeout))
 		if err := tc.Handshake(); err != nil {
 			return core.Result{Impl: "tls-listener-handshake-failed", Fail: err.Error(), Sig: "c05:handshake"}
 		}
+		cs := tc.ConnectionState()
+		curLayer, curView = 1, viewOf(&cs)
 		cc = &clientConn{c: tc, br: bufio.NewReader(tc)}
+	}
+	sentIn := func(id string) { // the request with this id is about to be sent through the current session
+		w.mu.Lock()
+		w.rec(id).layer, w.rec(id).tlsWant = curLayer, curView
+		w.mu.Unlock()
 	}
 	alive := true
 	pipe := e.conn["mode"] == "pipe"
@@ -786,6 +847,7 @@ func (e *Ex) runScenario() core.Result {
 		var all bytes.Buffer
 		for _, id := range e.ids {
 			all.Write(e.buildRequest(id, w.items[id]))
+			sentIn(id)
 		}
 		cc.c.SetWriteDeadline(time.Now().Add(ioTimeout))
 		go cc.c.Write(all.Bytes())
@@ -823,6 +885,7 @@ func (e *Ex) runScenario() core.Result {
 			w.mu.Lock()
 			w.current = id
 			w.mu.Unlock()
+			sentIn(id)
 			if ms, err := strconv.Atoi(e.conn["gap"]); err == nil && ms > 0 && idx > 0 {
 				time.Sleep(time.Duration(ms) * time.Millisecond)
 			}
@@ -853,6 +916,11 @@ func (e *Ex) runScenario() core.Result {
 							j = len(req)
 						}
 						cc.c.Write(req[i:j])
+					}
+				} else if earlyOK(it) {
+					if err := e.sendGated(cc, req, id); err != nil {
+						alive = false
+						continue
 					}
 				} else if _, err := cc.c.Write(req); err != nil {
 					alive = false
@@ -917,7 +985,8 @@ func (e *Ex) runScenario() core.Result {
 					continue
 				}
 				if it.kind == "cmitm" && it.s("tls", "1") == "1" {
-					tc := tls.Client(&bufConn{Conn: cc.c, r: cc.br}, &tls.Config{RootCAs: caPool, ServerName: "127.0.0.1"})
+					// layer idx+2: a session of its own, nested inside whatever the connection already carries
+					tc := tls.Client(&bufConn{Conn: cc.c, r: cc.br}, layerConfig(e.caseNo, idx+2, flip))
 					tc.SetDeadline(time.Now().Add(ioTimeout))
 					if err := tc.Handshake(); err != nil {
 						w.mu.Lock()
@@ -926,6 +995,8 @@ func (e *Ex) runScenario() core.Result {
 						alive = false
 						continue
 					}
+					cs := tc.ConnectionState()
+					curLayer, curView = idx+2, viewOf(&cs)
 					cc = &clientConn{c: tc, br: bufio.NewReader(tc)}
 				} else if it.kind == "cblind" {
 					// use the tunnel, then finish it: the proxy must close the connection afterwards
@@ -958,12 +1029,15 @@ func (e *Ex) runScenario() core.Result {
 
 	// quiescence: every context of this connection must go away
 	left := -1
-	for i := 0; i < 200; i++ {
+	for i := 0; i < int(ioTimeout/(15*time.Millisecond)); i++ { // 2 s, longer when re-confirming
 		left = martian.VerifLiveContexts()
 		if left == 0 {
 			break
 		}
 		time.Sleep(10 * time.Millisecond)
+	}
+	if left != 0 {
+		hitBound()
 	}
 
 	return e.report(open, left, probeID)
@@ -984,9 +1058,19 @@ func (timeoutError) Timeout() bool   { return true }
 func (timeoutError) Temporary() bool { return true }
 
 func isTimeout(err error) bool {
+	if timeoutErr(err) {
+		hitBound() // a verdict that rests on this is bound-dependent (reconfirm.go)
+		return true
+	}
+	return false
+}
+
+func timeoutErr(err error) bool {
 	var ne net.Error
 	return err != nil && errors.As(err, &ne) && ne.Timeout()
 }
+
+func rqIsErr(rq string) bool { return rq == "err" || rq == "errskip" }
 
 func b01(x bool) string {
 	if x {
@@ -1033,18 +1117,40 @@ func (e *Ex) report(open bool, left int, probeID string) core.Result {
 		if r.got {
 			st, cm, cp = strconv.Itoa(r.st), b01(r.cm), b01(r.cp)
 		}
-		hij := "-"
+		hij := "-,htid=-"
 		if r.hij != "" {
 			hij = r.hij
+			if r.hij == "raw" || r.hij == "tls" {
+				hij += fmt.Sprintf(",htid=%d", layerOfSNI(r.hijView.sni))
+			} else {
+				hij += ",htid=-"
+			}
 		}
-		parts = append(parts, fmt.Sprintf("%d:rq=%d,up=%s,uptls=%s,rs=%d,wq=%d,wt=%d,ws=%d,st=%s,cm=%s,cp=%s,https=%s,sec=%s,tls=%s,hij=%s",
-			idx, r.reqmod, b01(r.upCount > 0 || r.dialed > 0), upt, r.resmod, wq, r.wt, r.ws, st, cm, cp, b01(r.https), b01(r.sec), b01(r.tlsAttached), hij))
+		// which TLS session the request was attributed to (0 = none), and the wire attributes of the
+		// response a non-CONNECT exchange delivered
+		tid := 0
+		if r.tlsSeen.ok {
+			tid = layerOfSNI(r.tlsSeen.sni)
+		}
+		pvs, frs := "-", "-"
+		if r.got && it.kind == "x" {
+			pvs, frs = r.pvSeen, r.frSeen
+		}
+		parts = append(parts, fmt.Sprintf("%d:rq=%d,up=%s,uptls=%s,rs=%d,wq=%d,wt=%d,ws=%d,st=%s,cm=%s,cp=%s,https=%s,sec=%s,tls=%s,hij=%s,tid=%d,pv=%s,fr=%s",
+			idx, r.reqmod, b01(r.upCount > 0 || r.dialed > 0), upt, r.resmod, wq, r.wt, r.ws, st, cm, cp, b01(r.https), b01(r.sec), b01(r.tlsAttached), hij, tid, pvs, frs))
 
 		// ---------------- property oracles (independent of the Lean model) ----------------
 		rq, rs := it.s("rq", "pass"), it.s("rs", "pass")
 		// C02
 		if !servedBefore {
 			failf("c01:served-after-gap", "exchange %d served after an unserved one", idx)
+		}
+		if (rqIsErr(rq) || rs == "err") && r.reqmod > 0 && r.hij == "" && !r.got {
+			ek := it.s("ek", "plain")
+			if !rqIsErr(rq) {
+				ek = it.s("sek", "plain")
+			}
+			failf("c02:error-aborted-exchange", "exchange %d: a modifier error (value kind %q) aborted the exchange: no response reached the client", idx, ek)
 		}
 		if r.reqmod != 1 {
 			failf("c02:reqmod-count", "exchange %d: request modifier ran %d times", idx, r.reqmod)
@@ -1091,9 +1197,6 @@ func (e *Ex) report(open bool, left int, probeID string) core.Result {
 		if rs == "err" && r.got && r.ws < 1 {
 			failf("c02:no-warning-response", "exchange %d: response modifier error but no Warning on the response", idx)
 		}
-		if (rq == "err" || rs == "err") && !hijackedHere && !r.got {
-			failf("c02:error-aborted-exchange", "exchange %d: a modifier error aborted the exchange (no response)", idx)
-		}
 		if it.kind == "x" && (rq == "skip" || rq == "errskip") {
 			if r.upCount != 0 || r.dialed != 0 {
 				failf("c02:skip-contacted-upstream", "exchange %d: skip round trip but the origin was contacted", idx)
@@ -1126,7 +1229,7 @@ func (e *Ex) report(open bool, left int, probeID string) core.Result {
 				failf("c01:target", "exchange %d: origin saw %q, client sent %q", idx, r.upURI, want)
 			}
 			if r.upBody != wantBody {
-				failf("c01:request-body", "exchange %d: origin received body %s, client sent %s", idx, r.upBody, wantBody)
+				failf("c01:request-body", "exchange %d: origin received body %s, client sent %s%s", idx, r.upBody, wantBody, earlyNote(it, r))
 			}
 			if !r.upHdrOK {
 				failf("c01:request-header", "exchange %d: %s", idx, r.upHdrDetail)
@@ -1140,6 +1243,9 @@ func (e *Ex) report(open bool, left int, probeID string) core.Result {
 			want := originBody(it)
 			if bodiless(it.s("m", "GET"), it.n("st", 200)) {
 				want = nil
+			}
+			if r.stalled {
+				failf("c01:response-never-ends", "exchange %d: the client cannot find the end of the response (%s framing on a connection that stays open): it still waits after %v", idx, r.frSeen, ioTimeout)
 			}
 			if r.downBody != sum(want) || !r.cp {
 				failf("c01:response-body", "exchange %d: client received body %s (complete=%v), origin sent %s", idx, r.downBody, r.cp, sum(want))
@@ -1187,6 +1293,22 @@ func (e *Ex) report(open bool, left int, probeID string) core.Result {
 			if hijackedHere && r.hij != "tls" {
 				failf("c05:hijack-raw-conn", "tunnelled request %d: hijacker was handed the raw connection", idx)
 			}
+			if hijackedHere && r.hij == "tls" && r.tlsWant.ok && !r.hijView.same(r.tlsWant) {
+				failf("c05:hijack-other-session", "tunnelled request %d was decrypted from TLS session %d (%s) but the hijacker was handed the connection of another session (%s)", idx, r.layer, r.tlsWant, r.hijView)
+			}
+		}
+		// ... and the TLS state attached is the state of the session the request was decrypted from - on
+		// every kind of request, CONNECTs included - never that of another layer of the connection
+		if r.reqmod > 0 && r.tlsWant.ok {
+			if !r.tlsSeen.ok {
+				if it.kind != "x" || it.s("sec", "0") != "1" { // for tunnelled requests c05:not-secure says it already
+					failf("c05:no-tls-state", "request %d was sent through TLS session %d but has no TLS state", idx, r.layer)
+				}
+			} else if !r.tlsSeen.same(r.tlsWant) {
+				failf("c05:tls-state-of-other-session", "request %d was decrypted from TLS session %d (%s) but carries the state of another session (%s)", idx, r.layer, r.tlsWant, r.tlsSeen)
+			} else if !r.tlsSeen.complete {
+				failf("c05:tls-state-incomplete", "request %d: TLS state with HandshakeComplete=false", idx)
+			}
 		}
 		if it.s("sec", "0") == "0" && it.kind == "x" && (r.https || r.sec || r.tlsAttached) {
 			failf("c05:plain-marked-secure", "plain request %d: https=%v secure-session=%v tls-state=%v", idx, r.https, r.sec, r.tlsAttached)
@@ -1223,9 +1345,9 @@ func (e *Ex) report(open bool, left int, probeID string) core.Result {
 		switch {
 		case rq == "hijack" || rs == "hijack":
 			wantOpen = false
-		case it.kind == "x" && it.s("rc", "0") == "1":
+		case it.kind == "x" && clientAsksClose(it):
 			wantOpen = false
-		case it.kind == "x" && it.s("o", "ok") == "ok" && it.s("rcl", "0") == "1" && rq != "skip" && rq != "errskip":
+		case it.kind == "x" && it.s("o", "ok") == "ok" && originAsksClose(it) && rq != "skip" && rq != "errskip":
 			wantOpen = false
 		case it.kind == "x" && it.s("o", "ok") == "trunc" && rq != "skip" && rq != "errskip":
 			wantOpen = false
